@@ -310,6 +310,16 @@ def run_c09(pid):
     for pad in ([4096] if t == "quick" else [4096, 16777215, 16777000]):
         jobs.append({"fe": "sample", "rate": 44100, "bps": 8, "channels": 1, "opts": {"block_size": 16, "seektable": {"frames": 1}, "padding": pad,
                      "max_lpc": -1}, "pcm": pcm_spec("zero", 1, 16 * 932100), "writes": [16 * 932100], "tag": "maxpoints", "light": True})
+    # ... and the same with sparse tables (every n-th frame, every n seconds, the default), declared and undeclared: the points past the
+    # 932067th frame are points like the others
+    n_long = 16 * 940001
+    for st, total in (({"frames": 10000}, None), ({"frames": 7}, n_long), ({"seconds": 10}, None), (None, n_long), ({"frames": 933000}, None)):
+        jobs.append({"fe": "sample", "rate": 8000, "bps": 8, "channels": 1, "opts": {"block_size": 16, "seektable": st, "padding": 4096, "max_lpc": -1},
+                     "pcm": pcm_spec("zero", 1, n_long), "writes": [n_long], "tag": "maxpoints-sparse", "light": True})
+        if st is None:
+            del jobs[-1]["opts"]["seektable"]
+        if total:
+            jobs[-1]["total"] = total
     parts = [jobs[i::8] for i in range(8)]
 
     def drive(ip):
